@@ -21,7 +21,8 @@ from . import progs
 
 THEOREMS = [
     "deps_topological", "deps_nodup", "deps_mem_iff", "deps_runtime_first", "deps_main_last",
-    "machine_eq_direct", "init_once_after_imports", "boot_sync_needs_hsync", "init_suspension_invisible", "no_overtaking",
+    "machine_eq_direct", "init_once_after_imports", "boot_sync_needs_hsync", "stepA_always",
+    "init_complete_before_importer_even_if_suspending", "await_only_if_directly_blocking_counterexample", "init_suspension_invisible", "no_overtaking",
     "var_order", "spec_var_order_respects",
     "file_order", "file_order_any_sort", "sort_perm", "sort_sorted", "sort_input_order_independent", "init_calls_order", "import_order",
     "read_link_iff", "linkname_parse", "splitExt_spec", "linkname_split", "linkname_split_plain", "linkname_dotted_package",
@@ -168,6 +169,29 @@ func trb(n string, x int) int {
 	return y
 }
 
+func trs(n string, x int) int {
+	println("B", n)
+	a := make(chan int)
+	b := make(chan int)
+	go func() { a <- x }()
+	go func() { runtime.Gosched(); b <- 1 }()
+	y := 0
+	for i := 0; i < 2; i++ {
+		select {
+		case v := <-a:
+			y += v
+		case v := <-b:
+			y += v - 1
+		}
+	}
+	c := make(chan int)
+	go func() { y2 := <-c; c <- y2 }()
+	c <- y
+	y = <-c
+	println("E", n, y)
+	return y
+}
+
 func trg(n string, x int) int {
 	println("B", n)
 	runtime.Gosched()
@@ -203,9 +227,12 @@ def many_file_names(rng, n):
     return names
 
 
-def gen_program(rng, mod, size=None, edges=None, many=None, mainfiles=None):
+def gen_program(rng, mod, size=None, edges=None, many=None, mainfiles=None, block=None):
     """Draw a term of the model's language (import DAG, files, declarations) and render it to Go source.
     With `edges` (pairs (i, j), i imports j, j < i, index size-1 = main) the import graph is exactly that one.
+    `block`: the indices of the packages whose initialisers may SUSPEND (channel handshakes with goroutines they start,
+    select, Gosched; each such package has at least one suspending initialiser); every other package initialises without
+    any suspension. None = drawn per package.
     With `many` one package gets that many files (each with at least one init function); `mainfiles` fixes the number
     of files of the main package."""
     n = size or rng.choice([2, 3, 3, 4, 5, 6, 7])
@@ -230,6 +257,19 @@ def gen_program(rng, mod, size=None, edges=None, many=None, mainfiles=None):
         rng.shuffle(mainp.imports)
     ident = 0
     many_pkg = rng.choice(pkgs) if many else None
+    if block is None:
+        block = {p.idx for p in pkgs if rng.random() < 0.6}
+    for p in pkgs:
+        p.blocking = p.idx in block
+        p.nblock = 0
+
+    def tracer_for(p, choices):
+        t = rng.choice(choices) if p.blocking else "tr"
+        if p.blocking and p.nblock == 0 and t == "tr":
+            t = rng.choice(["trb", "trs", "trg"])      # a blocking package does suspend at least once
+        if t != "tr":
+            p.nblock += 1
+        return t
     # variables, functions, init functions
     for p in pkgs:
         nfiles = rng.choice([1, 2, 2, 3, 3])
@@ -264,10 +304,10 @@ def gen_program(rng, mod, size=None, edges=None, many=None, mainfiles=None):
                     zdeps.append(z)
             ext = []
             for q in p.imports:
-                if rng.random() < 0.6:
+                if rng.random() < 0.6 or hi == 0:
                     terms.append(rng.choice(["%s.X", "%s.F()"]) % q.name)
                     ext.append(q)
-            tracer = rng.choice(["tr", "tr", "trb", "trg"])
+            tracer = tracer_for(p, ["tr", "tr", "trb", "trg", "trs"])
             vdecls[v] = (deps, zdeps, "var %s = %s(\"V:%s.%s\", %s)\n" % (v, tracer, p.path, v, " + ".join(terms)), ext, tracer)
         decl_order = list(hidden)
         rng.shuffle(decl_order)
@@ -285,7 +325,7 @@ def gen_program(rng, mod, size=None, edges=None, many=None, mainfiles=None):
             rng.choice(p.files)["src"].append(fs)
         for f in p.files:
             for k in range(rng.choice([0, 1, 1, 2, 3]) if p is not many_pkg else rng.choice([1, 1, 2])):
-                tracer = rng.choice(["tr", "trb", "trg"]) if p is not many_pkg else rng.choice(["tr", "tr", "tr", "trb"])
+                tracer = tracer_for(p, ["tr", "trb", "trg", "trs"] if p is not many_pkg else ["tr", "tr", "tr", "trb"])
                 stm = ""
                 if zeros and rng.random() < 0.4:
                     stm = "\t%s += %d\n" % (rng.choice(zeros), rng.randrange(1, 9))
@@ -353,7 +393,7 @@ def gen_program(rng, mod, size=None, edges=None, many=None, mainfiles=None):
     # main function
     mf = rng.choice(mainp.files)
     mf["decls"].append("m")
-    mf["src"].append("func main() {\n\t%s(\"M\", %s)\n}\n" % (rng.choice(["tr", "trb", "trg"]), " + ".join(
+    mf["src"].append("func main() {\n\t%s(\"M\", %s)\n}\n" % (rng.choice(["tr", "trb", "trg"]) if mainp.blocking else "tr", " + ".join(
         ["0"] + ["%s.F()" % q.name for q in mainp.imports] + mainp.vars[:2])))
     mf["imports"].update(q.idx for q in mainp.imports)
     # render
@@ -441,6 +481,24 @@ def all_dags(n):
         yield [pr for b, pr in enumerate(pairs) if mask >> b & 1]
 
 
+def chain(n):
+    return [(i, i - 1) for i in range(1, n)]
+
+
+# import DAGs of depth 2..4 in which the initialisers of the packages in `block` genuinely SUSPEND and every other package
+# (in particular the packages between a suspending one and main) initialises without suspension; index size-1 = main
+SUSPEND_SHAPES = [
+    {"shape": "chain3-leaf", "size": 3, "edges": chain(3), "block": {0}},
+    {"shape": "diamond-a-imports-b-blocking", "size": 3, "edges": [(2, 1), (2, 0), (1, 0)], "block": {0}},
+    {"shape": "chain4-leaf", "size": 4, "edges": chain(4), "block": {0}},
+    {"shape": "chain4-inner", "size": 4, "edges": chain(4), "block": {1}},
+    {"shape": "chain5-leaf+inner", "size": 5, "edges": chain(5), "block": {0, 2}},
+    {"shape": "diamond4-bottom", "size": 4, "edges": [(3, 2), (3, 1), (2, 0), (1, 0)], "block": {0}},
+    {"shape": "fan5-deep-leaf", "size": 5, "edges": [(4, 3), (4, 1), (3, 2), (2, 0), (1, 0)], "block": {0}},
+    {"shape": "chain4-leaf+main", "size": 4, "edges": chain(4), "block": {0, 3}},
+]
+
+
 def program_tie(chk, tier, scratch, nprog, targeted=False, dags=None, special=None):
     """special: list of generator settings {size, many, mainfiles, perms}: `many` = one package with that many files;
     `perms` = the (single-package) program is additionally built from explicit file lists in EVERY permutation
@@ -454,7 +512,9 @@ def program_tie(chk, tier, scratch, nprog, targeted=False, dags=None, special=No
         job_extra = {}
         if special is not None:
             sp = special[k]
-            g = gen_program(chk.rng, mod, size=sp.get("size"), many=sp.get("many"), mainfiles=sp.get("mainfiles"))
+            g = gen_program(chk.rng, mod, size=sp.get("size"), many=sp.get("many"), mainfiles=sp.get("mainfiles"),
+                            edges=sp.get("edges"), block=sp.get("block"))
+            g["shape"] = sp.get("shape")
             if sp.get("perms"):
                 names = [f["name"] for f in g["pkgs"][-1].files]
                 job_extra["file_args"] = [list(x) for x in itertools.permutations(names)]
@@ -489,7 +549,7 @@ def program_tie(chk, tier, scratch, nprog, targeted=False, dags=None, special=No
             if nlinks.get(l["key"]) != str(l["expect"]):
                 raise RuntimeError("native Go disagrees with the generator about linkname %s: %s" % (l, nlinks.get(l["key"])))
         nfiles = sum(len(p.files) for p in g["pkgs"])
-        nblock = sum(s.count("trb(") + s.count("trg(") for s in g["files"].values())
+        nblock = sum(s.count("trb(\"") + s.count("trg(\"") + s.count("trs(\"") for s in g["files"].values())
         nlinks_total = sum(len(p.links) for p in g["pkgs"])
         maxfiles = max(len(p.files) for p in g["pkgs"])
         for v in j["variants"] + ["args%d" % i for i in range(len(j.get("file_args", [])))]:
@@ -499,6 +559,8 @@ def program_tie(chk, tier, scratch, nprog, targeted=False, dags=None, special=No
             jt, jv, jl, jjunk = tokens(obs[0])
             op = json.dumps({"id": j["id"], "variant": v, "desc": g["desc"], "files": g["files"],
                              "file_args": j["file_args"][int(v[4:])] if v.startswith("args") else None})
+            if g.get("shape"):
+                chk.count("program:suspend-shape:" + g["shape"])
             if maxfiles >= 13:
                 chk.count("program:many-files:%s" % ("13-25" if maxfiles <= 25 else "26-40"))
             chk.add_case("program:" + tv, g["desc"] + v, kindkey="program:%s:pkgs=%d" % ("file-args" if v.startswith("args") else v, len(g["pkgs"])),
@@ -935,18 +997,21 @@ def run(tier, seed):
         conflict_tie(chk, scratch)
         C.log("[C10] build errors / witness done %.0fs" % (time.time() - chk.t0))
         # (a)+(c) programs
-        nprog = 60 if tier == "thorough" else 10
+        nprog = 60 if tier == "thorough" else 8
         total = program_tie(chk, tier, scratch, nprog)
         # packages with MANY files (sort.Slice leaves insertion sort at 13 elements) and explicit file lists in every permutation
         nmany = 8 if tier == "thorough" else 2
         special = [{"size": chk.rng.choice([1, 2, 3]), "many": chk.rng.choice([13, 14, 15, 17, 20, 26, 33, 40])} for _ in range(nmany)]
         special += [{"size": 1, "mainfiles": 3, "perms": True}]
+        # suspension deep in the import DAG with non-suspending packages in between
+        special += SUSPEND_SHAPES[:2] + (SUSPEND_SHAPES[2:] * 2 + SUSPEND_SHAPES[:2] if tier == "thorough" else chk.rng.sample(SUSPEND_SHAPES[2:], 2))
         if tier == "thorough":
             special += [{"size": 1, "mainfiles": 3, "perms": True}, {"size": 1, "mainfiles": 4, "perms": True}, {"size": 1, "mainfiles": 4, "perms": True}]
         total += program_tie(chk, tier, scratch, 0, special=special)
-        if chk.tie_breaks or [m for m in chk.mismatches if not chk.known_match(m.get("signature"))]:
-            # a tie broke: search harder for an input on which the property itself fails
-            total += program_tie(chk, tier, scratch, 60, targeted=True)
+        if chk.tie_breaks and not [m for m in chk.mismatches if not chk.known_match(m.get("signature"))]:
+            # a tie broke and no failing input is known yet: search harder for an input on which the property itself fails
+            total += program_tie(chk, tier, scratch, 16, targeted=True)
+            total += program_tie(chk, tier, scratch, 0, special=SUSPEND_SHAPES + [{"size": 2, "many": 14}, {"size": 1, "mainfiles": 3, "perms": True}])
         if tier == "thorough":
             # exhaustive sub-space: every import DAG on up to 4 packages (3 libraries + main)
             dags = [(n, e) for n in (2, 3, 4) for e in all_dags(n)]
